@@ -169,9 +169,10 @@ def judge(case, w, r, s0, s1, plan_label, out, delivered_events):
         r.errtext(), putcheck.stderr_encode(spelled))
     ok_fb = st == 'ALTERED' and o.get('only_symlink_mtime') and \
         case['where'] == 'fallback'
+    stream_fault = bool(delivered_events) and delivered_events[0]['op'] == 'stderr-write'
     if st == 'TRASHED' or ok_fb:
         obs['outcome_trashed'] = obs.get('outcome_trashed', 0) + 1
-        if r.exit != 0 or reported:
+        if (r.exit != 0 or reported) and not stream_fault:
             return viol('trashed-but-failure-reported/%s' %
                         fault_class(delivered_events, w, case))
         if A.frame and not ok_fb:
@@ -188,7 +189,7 @@ def judge(case, w, r, s0, s1, plan_label, out, delivered_events):
         if r.exit == 0:
             return viol('untouched-but-exit0/%s' %
                         fault_class(delivered_events, w, case))
-        if not reported:
+        if not reported and not stream_fault:
             return viol('failure-without-diagnostic/%s' %
                         fault_class(delivered_events, w, case))
         if A.frame:
@@ -354,6 +355,13 @@ def run_case(case):
                       'k=%d %s %s + k=%d %s %s' % (
                           e1['k'], e1['op'], errno.errorcode[x1],
                           e2['k'], e2['op'], errno.errorcode[x2])))
+    # (d) the diagnostic stream itself fails: the k-th write on stderr gets
+    # EPIPE (the reader of 2>&1 | ... went away) or ENOSPC (full log file)
+    nwrites = ref.errtext().count('\n') + 2
+    for k in range(1, min(nwrites, 12) + 1):
+        for err in (E.EPIPE, E.ENOSPC):
+            plans.append(('stderr', {'stderr_fail_at': k, 'stderr_errno': err},
+                          'stderr write #%d %s' % (k, errno.errorcode[err])))
     seen_mech = {}
     for kind, extra, label in plans:
         ex = dict(extra)
@@ -370,11 +378,17 @@ def run_case(case):
                          stdin=b'', plan=plan)
             a1 = wk.snapshot()
             obs['fault_plans'] = obs.get('fault_plans', 0) + 1
-            obs[{'one-shot': 'one_shot_plans', 'persistent': 'persistent_plans',
-                 'pair': 'pair_plans'}[kind]] = obs.get(
-                {'one-shot': 'one_shot_plans', 'persistent': 'persistent_plans',
-                 'pair': 'pair_plans'}[kind], 0) + 1
+            kk = {'one-shot': 'one_shot_plans', 'persistent': 'persistent_plans',
+                  'pair': 'pair_plans', 'stderr': 'stderr_plans'}[kind]
+            obs[kk] = obs.get(kk, 0) + 1
             delivered = [e for e in rk.events if e.get('r') == 'F']
+            if kind == 'stderr':
+                delivered = []
+                if rk.crash and rk.crash.get('why') == 'stderr-write-failed':
+                    delivered = [{'k': -1, 'op': 'stderr-write',
+                                  'e': ex['stderr_errno'], 'p': [None],
+                                  'text': rk.crash.get('text')}]
+                    obs['stderr_faults_delivered'] = obs.get('stderr_faults_delivered', 0) + 1
             if delivered:
                 obs['faults_delivered'] = obs.get('faults_delivered', 0) + 1
                 nv = len(out['violations'])
